@@ -97,6 +97,36 @@ func run(c *core.Ctx) {
 	nontrivial := 0
 	kills := 0
 	deadline := time.Now().Add(c.MinutesT(1, 15))
+	// directed schedules first: a locked node is challenged by a late polka of an OLDER round
+	// and a fresh proposal (the situation the unlock rule is about; random schedules hit it rarely)
+	nDirected, reachedN := c.Pick(6, 40), 0
+	for d := 0; d < nDirected; d++ {
+		seed := c.Seed*100000 + 90000 + int64(d)
+		lines, desc, reached, err := lockChallengeTrace(seed)
+		if err != nil {
+			c.Drift("%v", err)
+			continue
+		}
+		if reached {
+			reachedN++
+		}
+		first := line + 1
+		for _, l := range lines {
+			bundle.Write(l)
+			bundle.WriteByte('\n')
+			line++
+		}
+		infos = append(infos, traceInfo{seed: seed, first: first, last: line, desc: desc})
+		o.Evaluations += len(lines)
+		nontrivial++
+		if d == 0 {
+			c.Sample(map[string]interface{}{"trace": desc, "challenge_reached": reached})
+		}
+	}
+	c.SetExtra("directed_lock_challenges_reached", reachedN)
+	if reachedN == 0 {
+		c.Infra("none of the %d directed lock-challenge schedules reached the challenge (target locked in round 1, late round-0 prevote, fresh round-2 proposal)", nDirected)
+	}
 	for t := 0; t < nTraces && time.Now().Before(deadline); t++ {
 		seed := c.Seed*100000 + int64(t)
 		lines, desc, cl, err := genTrace(seed, t)
